@@ -138,6 +138,17 @@ Proof.
   simpl. destruct st as [[? ? ?] ? ?]; reflexivity.
 Qed.
 
+(* a report name too short to hold a date is skipped: nothing changes, the
+   thread goes on to the next ready file (fix 8d04c54; it used to panic) *)
+Theorem step_at_read_short st i t o c :
+  nth_error (s_ths st) i = Some t -> t_killed t = false -> t_pc t = URead ->
+  d_get (f_local (s_fs st)) (t_file t) = Some c -> fdate (t_file t) = None ->
+  step st (i, AStep o) = mkSt (s_fs st) (s_log st) (upd (s_ths st) i (advance t)).
+Proof.
+  intros Hi Hk Hp Hc Hw. erewrite step_at; eauto; [|simpl; unfold decide; rewrite Hp, Hc, Hw; reflexivity].
+  simpl. destruct st as [[? ? ?] ? ?]; reflexivity.
+Qed.
+
 (* between the read and the request the buffer is not touched *)
 Definition buf_phase (p : pc) : bool := match p with ULock | UStat | UPost => true | _ => false end.
 
